@@ -307,7 +307,40 @@ func (n *quotedString) Text() string {
 
 // String returns the SQL/JSON path-encoded quoted string.
 func (n *quotedString) String() string {
-	return strconv.Quote(n.str)
+	return quote(n.str)
+}
+
+// quote returns s as a double-quoted SQL/JSON path string literal. It is
+// strconv.Quote, except for the two escapes that the path lexer does not
+// read back: \a is written as \u0007 and \UXXXXXXXX as \u{X...}.
+func quote(s string) string {
+	quoted := strconv.Quote(s)
+	if !strings.Contains(quoted, `\a`) && !strings.Contains(quoted, `\U`) {
+		return quoted
+	}
+
+	buf := new(strings.Builder)
+	for i := 0; i < len(quoted); i++ {
+		if quoted[i] != '\\' || i+1 == len(quoted) {
+			buf.WriteByte(quoted[i])
+			continue
+		}
+
+		// An escape sequence: copy it, or rewrite \a and \U.
+		i++
+		switch quoted[i] {
+		case 'a':
+			buf.WriteString(`\u0007`)
+		case 'U':
+			const hexDigits = 8
+			buf.WriteString(`\u{` + strings.TrimLeft(quoted[i+1:i+1+hexDigits], "0") + "}")
+			i += hexDigits
+		default:
+			buf.WriteByte('\\')
+			buf.WriteByte(quoted[i])
+		}
+	}
+	return buf.String()
 }
 
 // writeTo writes n.String to buf.
@@ -874,7 +907,7 @@ func (n *RegexNode) writeTo(buf *strings.Builder, _, withParens bool) {
 	}
 
 	n.operand.writeTo(buf, false, n.operand.priority() <= n.priority())
-	fmt.Fprintf(buf, " like_regex %q%v", n.pattern, n.flags)
+	fmt.Fprintf(buf, " like_regex %v%v", quote(n.pattern), n.flags)
 
 	if withParens {
 		buf.WriteRune(')')
